@@ -6,6 +6,34 @@ import json
 ALL = ["C%02d" % i for i in range(1, 20)]
 
 CHECKS = {
+ "C01": dict(
+  category="exploration",
+  text="Each of the 61 indicator Compute methods is executed on channels for the default and many seeded random admissible configurations, 11-12 series classes (walks, ties, plateaus, flat, monotone, degenerate bars, outliers, zero/negative integers for additive types) and several lengths; every output position is compared with a slice reference written from the doc comment and evaluated directly on its window (no shared code with the library), tolerance 1e-9 x natural scale, ill-conditioned positions exempt and counted. Known deviations are recognised only through one-switch deviation models (anything else is a violation). Bounded exploration: holds for the sampled configurations and series.",
+  design_ref="DESIGN.md §3 C01, Appendix A",
+  note="Trusted: the reference readings in harness/internal/reg (Appendix A records where the doc comment is silent and the reference follows code/convention: those rows guard regressions only); IEEE float64; tolerance rule of DESIGN §3 C01.",
+  technique="differential runtime monitoring of real executions against documented-formula slice references (one-switch deviation models for known findings)",
+ ),
+ "C02": dict(
+  category="exploration",
+  text="For all 61 indicators and default + random configurations, EVERY input length n in [0, 2w+3] (plus two longer ones) is run and the number of values on every output compared with max(0, n-w), w read from the live instance; alignment (k-th value refers to position k+w) is decided reference-free by the dependence-front probe: inputs changed from position p on must first change output index exactly p-w (never earlier, and not consistently later over 36+ probes; escalated to every position before an output is called late).",
+  design_ref="DESIGN.md §3 C02, §1 E2",
+  note="Trusted: IdlePeriod() of the instance as the declared w (implied w for Apo, Aroon, Bop, TypicalPrice); Ichimoku's lagging span is by definition LaggingPeriod behind.",
+  technique="runtime counting of emitted values per output over all short lengths + dependence-front (metamorphic perturbation) probe",
+ ),
+ "C03": dict(
+  category="exploration",
+  text="All indicators and strategies (base, compound, decorated, nested) are run in a timer-free pure-Go child under 4 channel capacities x 4 pacings x 2-4 GOMAXPROCS settings, for lengths around the warm-up, empty inputs and unequal input lengths. Termination is decided by the Go runtime's own deadlock proof (no timeout), leaks by a goroutine census fixed point after each run, consumption by producers having to reach close, determinism by bit-equality across all schedule parameterisations; distinct observed receive interleavings are counted.",
+  design_ref="DESIGN.md §3 C03, §1 E3",
+  note="Trusted: the Go scheduler/runtime deadlock detector (children are built CGO_ENABLED=0 because a cgo extra M disables it); Kahn-network determinacy is what makes sampled schedules representative, and is itself monitored by the bit-equality oracle and C09's race runs.",
+  technique="stress execution under varied schedules with runtime deadlock detector, goroutine census (leak monitor) and cross-schedule equality oracle",
+ ),
+ "C16": dict(
+  category="exploration",
+  text="Every stream helper is compared exactly with a pure slice model for all input lengths 0-6 x all parameters 0-8 (all unequal-length combinations for the zippers), three element types with distinct signed elements and 4 schedule parameterisations, inside the timer-free runner (deadlock report, census, producers must reach close); plus random long inputs. The enumerated small scope is exhaustive; beyond it sampled.",
+  design_ref="DESIGN.md §3 C16",
+  note="Trusted: the slice models in harness/internal/props/c16.go. Head is modelled as take-N-and-leave-the-rest, Seq as half-open, Echo only for inputs at least as long as its memory (shorter inputs are outside the documented behaviour and are skipped, counted).",
+  technique="exhaustive small-scope model-based runtime monitoring (slice models) under the deadlock/leak monitors",
+ ),
  "C17": dict(
   category="exploration",
   text="Ring and Bst are driven through thousands of random operation histories over all seven numeric element types with values at the extremes of each type, in lock-step with a bounded-FIFO model and a multiset model; every return value is compared and the live tree is walked by reflection (sorted in-order, size and multiplicities equal to the model). All Bst histories up to length 5/6 over a 3-letter alphabet are enumerated exhaustively. This is bounded exploration: it shows the models agree on the histories run, not on all histories.",
